@@ -68,22 +68,16 @@ theorem v2_safe_spelled (cfg : Config) (s : St) (h : safe cfg s = true) :
 
 /-- no stop request: the full property (no hazard ever, so every guarded clause is in force) -/
 theorem v2_handoff_safe : ∀ s, Reach (sys cfgHandoff) s → (safe cfgHandoff s && noHazard s) = true :=
-  safe_of_check _ { coded with M := 509 } 400 _ (by decide +kernel)
-
-/-- stop request at ANY time relative to the queued waiter: everything except `lock not leaked`
-    unconditionally; `lock not leaked` / `every waiter completes` when no stop request was pending
-    between hand-off and delivery. -/
-theorem v2_handoff_stop_safe_partial : ∀ s, Reach (sys cfgHandoffStop) s → safe cfgHandoffStop s = true :=
-  safe_of_check _ { coded with M := 1021 } 400 _ (by decide +kernel)
+  safe_of_check _ { coded with M := 337, W := 192 } 400 _ (by decide +kernel)
 
 theorem v2_leak_seq_safe_partial : ∀ s, Reach (sys cfgLeakSeq) s → safe cfgLeakSeq s = true :=
-  safe_of_check _ { coded with M := 127 } 400 _ (by decide +kernel)
+  safe_of_check _ { coded with M := 71, W := 264 } 400 _ (by decide +kernel)
 
 /-- `lock not leaked` is FALSE for the code as it stands: in the sequential reproducer EVERY
     execution that runs to the end leaks the lock (DESIGN §8 #3). -/
 theorem v2_leak_seq_always_leaks : ∀ s, Reach (sys cfgLeakSeq) s →
     (!final cfgLeakSeq s || leaked cfgLeakSeq s) = true :=
-  safe_of_check _ { coded with M := 127 } 400 _ (by decide +kernel)
+  safe_of_check _ { coded with M := 71, W := 264 } 400 _ (by decide +kernel)
 
 /-- the schedule of the witness (thread choices among the enabled ones; the run is sequential) -/
 def leakSchedule : List Nat := List.replicate 34 0
